@@ -21,6 +21,7 @@
     defects of the iterators, all fixed in /repo and kept as corpus regressions). *)
 From Coq Require Import ZArith NArith List.
 From LV Require Import Base.Conc Base.Events Model.Feldman Model.FeldmanIter Proofs.FeldmanStepInv Proofs.FeldmanStepSafe Proofs.FeldmanStepThm Proofs.FeldmanIterThm.
+From LV Require Proofs.FeldmanIterSafe.
 Import ListNotations.
 
 (** (1) an element occupies at most one slot of the tree, in every reachable configuration: the iterator's pair
@@ -95,13 +96,30 @@ Print Assumptions C19_feldman_erase_at_false_gone.
 
 (** ** the statements that are NOT proved *)
 
-(** the programs of the iterator model preserve the structural invariant (for LV.Model.Feldman alone this is
-    [FeldmanStepSafe.feldman_inv_reach]) *)
-Definition feldman_iter_inv_statement : Prop :=
+(** (5) the programs of the iterator model preserve the structural invariant, every schedule: every theorem above about
+    states that satisfy the invariant holds in every reachable configuration of the model WITH iterators (iterations,
+    erase_at and the set operations interleaved at will).  Ghost knowledge: the prefixes of the array nodes on the
+    iterator's descent stack (Proofs/FeldmanIterSafe.v). *)
+Theorem C19_feldman_iter_inv :
   forall (hbits abits W : nat) (hs : list N), 0 < hbits -> 0 < abits ->
   forall (fuel : nat) (ths : list (list (list Z))) c,
     Conc.reach (FeldmanIter.init_cfgI hbits abits W hs fuel ths) c ->
     exists A, FeldmanStepInv.Inv hbits abits hs (Conc.shared c) A (Conc.trace c).
+Proof. intros hbits abits W hs Hh Ha fuel ths c. apply (@FeldmanIterSafe.feldman_iter_inv hbits abits W hs Hh Ha). Qed.
+Print Assumptions C19_feldman_iter_inv.
+
+(** ... in particular an element occupies at most one slot while iterators run *)
+Theorem C19_feldman_iter_element_position_unique :
+  forall (hbits abits W : nat) (hs : list N), 0 < hbits -> 0 < abits ->
+  forall (fuel : nat) (ths : list (list (list Z))) c,
+    Conc.reach (FeldmanIter.init_cfgI hbits abits W hs fuel ths) c ->
+    forall a i a' i' p, data_at (Conc.shared c) a i p -> data_at (Conc.shared c) a' i' p -> a = a' /\ i = i'.
+Proof.
+  intros hbits abits W hs Hh Ha fuel ths c Hr a i a' i' p H1 H2.
+  destruct (@FeldmanIterSafe.feldman_iter_inv hbits abits W hs Hh Ha fuel ths c Hr) as (A & HI).
+  destruct (FeldmanStepThm.nodup_inv Hh Ha HI H1 H2 eq_refl) as (E1 & E2 & _). split; assumption.
+Qed.
+Print Assumptions C19_feldman_iter_element_position_unique.
 
 (** one complete iteration of thread [t] (operation 20 forward / 21 reverse, no erase_at: k = 99) between the
     configurations [c1] and [c2]: every element that is in the tree in every configuration in between is visited *)
